@@ -44,6 +44,7 @@ fn c15_alphabet(cfg: &NodeCfg) -> Vec<Op> {
         Op::SetMaxSize(0),
         Op::SetMaxSize(cfg.seg_size - 1),
         Op::SetMaxSize(2 * cfg.seg_size),
+        Op::SetMaxDefault,
         Op::Restart,
     ]
 }
@@ -244,7 +245,7 @@ fn shape(hist: &[Op]) -> String {
             Op::Advance(_) => "A",
             Op::Maintain => "M",
             Op::SetExpiry(_) => "E",
-            Op::SetMaxSize(_) => "Z",
+            Op::SetMaxSize(_) | Op::SetMaxDefault => "Z",
             Op::Store(_) => "O",
         })
         .collect();
@@ -430,6 +431,10 @@ impl Oracle for C15 {
                     }
                 }
             }
+            (Op::SetMaxDefault, StepOut::Done(r)) => match r {
+                Ok(()) => self.limit = w.cfg.max_topic_size,
+                Err(e) => return Err(format!("update_topic to the server-default size limit refused: {e}")),
+            },
             (_, StepOut::Done(Err(e))) if e.starts_with("PANIC") => return Err(format!("operation panicked: {e}")),
             _ => {}
         }
